@@ -7,6 +7,8 @@ CHECKS = {
          "CBMC 6.11 + kissat/cadical; lock gives mutual exclusion; a sleeping writer wakes in an arbitrary INV state; lap counter < 2^62; capacity <= 2^40", "bounded symbolic execution (CBMC) of channel.c: inductive step with SAT verdict"),
  "C02": ("proof", "Same induction step: after channel_write_map the region is data+head', inside the buffer, disjoint from every reader's unread intervals and from a mapped observer's slice; read slices are prefixes of committed contiguous data.", "§4 C02",
          "as C01", "bounded symbolic execution (CBMC) of channel.c: inductive step with SAT verdict"),
+ "C13": ("model_checking", "Scripted call shapes over the real props/storage.c with all strings symbolic (NULL, empty, 1..3 bytes, terminated or not) and 0..2 dimensions per side: after copy every field is compared, pointer independence asserted, the source compared with a snapshot, the source mutated and the copy re-checked, a second copy in either direction; CBMC heap instrumentation decides double free/use after free/OOB and the leak check decides 'each allocation released exactly once'.", "§4 C13",
+         "CBMC + cadical; realloc without content copy; typed memset/memcpy rewrite (lib/typed_mem.h); malloc never fails", "bounded symbolic execution (CBMC) of props/storage.c with heap and leak instrumentation"),
 }
 NA = {}
 def main():
